@@ -101,6 +101,9 @@ def c15_cases(tier, rng):
             c = CC(exts=exts); c.mail(b"s@x"); c.rcpt(b"r@x", dict(orcpttype=b"UTF-8", orcpt=b"o@x" + h + b"y", notify=[b"FAILURE"])); hostile.append(c.case())
             c = CC(exts=exts); c.mail(b"s@x"); c.rcpt(b"r@x", dict(notify=[b"SUCCESS", h])); hostile.append(c.case())
             c = CC(exts=exts); c.mail(b"s@x", dict(ret=h)); hostile.append(c.case())
+            # the mechanism name comes from the caller's sasl.Client: it goes on the AUTH line like any other argument
+            for ir in ("none", hx(b"ir")):
+                c = CC(exts=exts + [b"AUTH PLAIN X"]); c.call("auth", hx(b"PLAIN" + h), ir, ""); c.reply(OK); c.call("noop"); hostile.append(c.case())
     return benign, hostile
 
 
